@@ -74,83 +74,104 @@ Definition slash : Z := 47.
 (* 0x1ff & -(int64_t)size  and friends *)
 Definition pad_to (m : Z) (n : Z) : Z := (- n) mod m.
 
-(* ---- the strings part shared by the ustar writer ---- *)
-(* returns (ret, h): ret = 0 or ARCHIVE_FAILED for this step *)
-Definition ustar_put_name (pp : list Z) (h : list Z) : Z * list Z :=
-  let n := length pp in
-  if (n <=? USTAR_name_size)%nat then (0, put USTAR_name_offset pp h)
-  else
-    let p0 := strchr_from pp (n - USTAR_name_size - 1) slash in
-    let p := match p0 with
-             | Some O => strchr_from pp 1 slash
-             | _ => p0
-             end in
-    match p with
-    | None => (ST_FAILED, h)
-    | Some i =>
-        if (S i =? n)%nat then (ST_FAILED, h)
-        else if (USTAR_prefix_size <? i)%nat then (ST_FAILED, h)
-        else (0, put USTAR_name_offset (skipn (S i) pp) (put USTAR_prefix_offset (firstn i pp) h))
-    end.
+(* A header is built as a sequence of memcpy-like writes (offset, bytes) over a template. *)
+Definition wr := (nat * list Z)%type.
+Fixpoint apply_writes (ws : list wr) (buf : list Z) : list Z :=
+  match ws with
+  | [] => buf
+  | (o, b) :: t => apply_writes t (put o b buf)
+  end.
+Definition wr_if (c : bool) (o : nat) (b : list Z) : list wr := if c then [(o, b)] else [].
 
 Definition pick (c : bool) (v ret : Z) : Z := if c then v else ret.
 
-(* __archive_write_format_header_ustar(a, h, entry, tartype, strict, sconv): (ret, h) *)
-Definition ustar_header (e : entry) (tartype : Z) (strict : bool) : Z * list Z :=
-  let h := ustar_template in
-  let ret := 0 in
-  let '(r, h) := ustar_put_name (ob (e_path e)) h in
-  let ret := pick (negb (r =? 0)) r ret in
-  (* hardlink, else symlink *)
+(* ---- the pathname part of the ustar writer: (0 | ARCHIVE_FAILED, writes) ---- *)
+Definition ustar_split (pp : list Z) : option nat :=
+  let n := length pp in
+  let p0 := strchr_from pp (n - USTAR_name_size - 1) slash in
+  match p0 with
+  | Some O => strchr_from pp 1 slash
+  | _ => p0
+  end.
+
+Definition ustar_name_writes (pp : list Z) : Z * list wr :=
+  let n := length pp in
+  if (n <=? USTAR_name_size)%nat then (0, [(USTAR_name_offset, pp)])
+  else
+    match ustar_split pp with
+    | None => (ST_FAILED, [])
+    | Some i =>
+        if (S i =? n)%nat then (ST_FAILED, [])
+        else if (USTAR_prefix_size <? i)%nat then (ST_FAILED, [])
+        else (0, [(USTAR_prefix_offset, firstn i pp); (USTAR_name_offset, skipn (S i) pp)])
+    end.
+
+(* hardlink target if non-empty, else symlink target *)
+Definition linkname_of (e : entry) : list Z :=
   let hl := if is_some (e_hard e) then ob (e_hard e) else [] in
-  let mytartype := if (0 <? length hl)%nat then 49 else -1 in
-  let lk := if (0 <? length hl)%nat then hl else (if is_some (e_sym e) then ob (e_sym e) else []) in
+  if (0 <? length hl)%nat then hl else (if is_some (e_sym e) then ob (e_sym e) else []).
+Definition mytartype_of (e : entry) : Z :=
+  if (0 <? length (if is_some (e_hard e) then ob (e_hard e) else []))%nat then 49 else -1.
+
+Definition is_dev (e : entry) : bool := (filetype e =? IFBLK) || (filetype e =? IFCHR).
+
+Definition ustar_typeflag (e : entry) (tartype : Z) : option Z :=
+  let ft := filetype e in
+  if 0 <=? tartype then Some tartype
+  else if 0 <=? mytartype_of e then Some (mytartype_of e)
+  else if ft =? IFREG then Some 48
+  else if ft =? IFLNK then Some 50
+  else if ft =? IFCHR then Some 51
+  else if ft =? IFBLK then Some 52
+  else if ft =? IFDIR then Some 53
+  else if ft =? IFIFO then Some 54
+  else None.
+
+(* __archive_write_format_header_ustar(a, h, entry, tartype, strict, sconv) up to the checksum:
+   (ret, writes over the template), in the order of the C statements *)
+Definition ustar_fields (e : entry) (tartype : Z) (strict : bool) : Z * list wr :=
+  let nm := ustar_name_writes (ob (e_path e)) in
+  let ret := pick (negb (fst nm =? 0)) (fst nm) 0 in
+  let lk := linkname_of e in
   let ret := pick ((USTAR_linkname_size <? length lk)%nat) ST_FAILED ret in
-  let h := if (0 <? length lk)%nat then put USTAR_linkname_offset (firstn USTAR_linkname_size lk) h else h in
   let un := ob (e_uname e) in
   let ret := pick ((USTAR_uname_size <? length un)%nat && negb (tartype =? 120)) ST_FAILED ret in
-  let h := if (0 <? length un)%nat then put USTAR_uname_offset (firstn USTAR_uname_size un) h else h in
   let gn := ob (e_gname e) in
   let ret := pick ((USTAR_gname_size <? length gn)%nat && negb (tartype =? 120)) ST_FAILED ret in
-  let h := if (0 <? length gn)%nat then put USTAR_gname_offset (firstn USTAR_gname_size gn) h else h in
-  let '(r, b) := ustar_format_number (Z.land (e_mode e) 4095) USTAR_mode_size USTAR_mode_max_size strict in
-  let h := put USTAR_mode_offset b h in
-  let ret := pick (negb (r =? 0)) ST_FAILED ret in
-  let '(r, b) := ustar_format_number (e_uid e) USTAR_uid_size USTAR_uid_max_size strict in
-  let h := put USTAR_uid_offset b h in
-  let ret := pick (negb (r =? 0)) ST_FAILED ret in
-  let '(r, b) := ustar_format_number (e_gid e) USTAR_gid_size USTAR_gid_max_size strict in
-  let h := put USTAR_gid_offset b h in
-  let ret := pick (negb (r =? 0)) ST_FAILED ret in
-  let '(r, b) := ustar_format_number (size_of e) USTAR_size_size USTAR_size_max_size strict in
-  let h := put USTAR_size_offset b h in
-  let ret := pick (negb (r =? 0)) ST_FAILED ret in
-  let '(r, b) := ustar_format_number (e_mtime e) USTAR_mtime_size USTAR_mtime_max_size strict in
-  let h := put USTAR_mtime_offset b h in
-  let ret := pick (negb (r =? 0)) ST_FAILED ret in
-  let isdev := (filetype e =? IFBLK) || (filetype e =? IFCHR) in
-  let '(r1, b1) := ustar_format_number (dev_major (e_rdev e)) USTAR_rdevmajor_size USTAR_rdevmajor_max_size strict in
-  let h := if isdev then put USTAR_rdevmajor_offset b1 h else h in
-  let ret := pick (isdev && negb (r1 =? 0)) ST_FAILED ret in
-  let '(r2, b2) := ustar_format_number (dev_minor (e_rdev e)) USTAR_rdevminor_size USTAR_rdevminor_max_size strict in
-  let h := if isdev then put USTAR_rdevminor_offset b2 h else h in
-  let ret := pick (isdev && negb (r2 =? 0)) ST_FAILED ret in
-  let ft := filetype e in
-  let tf := if 0 <=? tartype then Some tartype
-            else if 0 <=? mytartype then Some mytartype
-            else if ft =? IFREG then Some 48
-            else if ft =? IFLNK then Some 50
-            else if ft =? IFCHR then Some 51
-            else if ft =? IFBLK then Some 52
-            else if ft =? IFDIR then Some 53
-            else if ft =? IFIFO then Some 54
-            else None in
-  let h := match tf with Some t => put USTAR_typeflag_offset [t] h | None => h end in
+  let fmode := ustar_format_number (Z.land (e_mode e) 4095) USTAR_mode_size USTAR_mode_max_size strict in
+  let ret := pick (negb (fst fmode =? 0)) ST_FAILED ret in
+  let fuid := ustar_format_number (e_uid e) USTAR_uid_size USTAR_uid_max_size strict in
+  let ret := pick (negb (fst fuid =? 0)) ST_FAILED ret in
+  let fgid := ustar_format_number (e_gid e) USTAR_gid_size USTAR_gid_max_size strict in
+  let ret := pick (negb (fst fgid =? 0)) ST_FAILED ret in
+  let fsize := ustar_format_number (size_of e) USTAR_size_size USTAR_size_max_size strict in
+  let ret := pick (negb (fst fsize =? 0)) ST_FAILED ret in
+  let fmtime := ustar_format_number (e_mtime e) USTAR_mtime_size USTAR_mtime_max_size strict in
+  let ret := pick (negb (fst fmtime =? 0)) ST_FAILED ret in
+  let fmaj := ustar_format_number (dev_major (e_rdev e)) USTAR_rdevmajor_size USTAR_rdevmajor_max_size strict in
+  let ret := pick (is_dev e && negb (fst fmaj =? 0)) ST_FAILED ret in
+  let fmin := ustar_format_number (dev_minor (e_rdev e)) USTAR_rdevminor_size USTAR_rdevminor_max_size strict in
+  let ret := pick (is_dev e && negb (fst fmin =? 0)) ST_FAILED ret in
+  let tf := ustar_typeflag e tartype in
   let ret := pick (negb (is_some tf)) ST_FAILED ret in
-  let checksum := sum_bytes h in
-  let h := put (USTAR_checksum_offset + 6) [0] h in
-  let h := put USTAR_checksum_offset (snd (ustar_format_octal checksum 6)) h in
-  (ret, h).
+  (ret,
+   snd nm
+   ++ wr_if (0 <? length lk)%nat USTAR_linkname_offset (firstn USTAR_linkname_size lk)
+   ++ wr_if (0 <? length un)%nat USTAR_uname_offset (firstn USTAR_uname_size un)
+   ++ wr_if (0 <? length gn)%nat USTAR_gname_offset (firstn USTAR_gname_size gn)
+   ++ [(USTAR_mode_offset, snd fmode); (USTAR_uid_offset, snd fuid); (USTAR_gid_offset, snd fgid);
+       (USTAR_size_offset, snd fsize); (USTAR_mtime_offset, snd fmtime)]
+   ++ wr_if (is_dev e) USTAR_rdevmajor_offset (snd fmaj)
+   ++ wr_if (is_dev e) USTAR_rdevminor_offset (snd fmin)
+   ++ match tf with Some t => [(USTAR_typeflag_offset, [t])] | None => [] end).
+
+(* checksum over the block whose checksum field still holds the template's spaces *)
+Definition tar_checksum_ustar (h : list Z) : list Z :=
+  put USTAR_checksum_offset (snd (ustar_format_octal (sum_bytes h) 6)) (put (USTAR_checksum_offset + 6) [0] h).
+
+Definition ustar_header (e : entry) (tartype : Z) (strict : bool) : Z * list Z :=
+  let f := ustar_fields e tartype strict in
+  (fst f, tar_checksum_ustar (apply_writes (snd f) ustar_template)).
 
 (* trailing '/' for directories (the entry is modified so the client sees it) *)
 Definition dir_slash (e : entry) : entry :=
@@ -199,42 +220,41 @@ Definition ustar_entry (full : bool) (e : entry) : ewrite :=
   end.
 
 (* ------------------------------------------------------------------ v7tar *)
-Definition v7tar_header (e : entry) (strict : bool) : Z * list Z :=
-  let h := v7tar_template in
+Definition v7tar_fields (e : entry) (strict : bool) : Z * list wr :=
   let pp := ob (e_path e) in
   let fits := if strict then (length pp <? V7TAR_name_size)%nat else (length pp <=? V7TAR_name_size)%nat in
-  let h := if fits then put V7TAR_name_offset pp h else h in
   let ret := pick (negb fits) ST_FAILED 0 in
-  let hl := if is_some (e_hard e) then ob (e_hard e) else [] in
-  let mytartype := if (0 <? length hl)%nat then 49 else -1 in
-  let lk := if (0 <? length hl)%nat then hl else (if is_some (e_sym e) then ob (e_sym e) else []) in
+  let lk := linkname_of e in
   let ret := pick ((V7TAR_linkname_size <=? length lk)%nat) ST_FAILED ret in
-  let h := if (0 <? length lk)%nat then put V7TAR_linkname_offset (firstn V7TAR_linkname_size lk) h else h in
-  let '(r, b) := ustar_format_number (Z.land (e_mode e) 4095) V7TAR_mode_size V7TAR_mode_max_size strict in
-  let h := put V7TAR_mode_offset b h in
-  let ret := pick (negb (r =? 0)) ST_FAILED ret in
-  let '(r, b) := ustar_format_number (e_uid e) V7TAR_uid_size V7TAR_uid_max_size strict in
-  let h := put V7TAR_uid_offset b h in
-  let ret := pick (negb (r =? 0)) ST_FAILED ret in
-  let '(r, b) := ustar_format_number (e_gid e) V7TAR_gid_size V7TAR_gid_max_size strict in
-  let h := put V7TAR_gid_offset b h in
-  let ret := pick (negb (r =? 0)) ST_FAILED ret in
-  let '(r, b) := ustar_format_number (size_of e) V7TAR_size_size V7TAR_size_max_size strict in
-  let h := put V7TAR_size_offset b h in
-  let ret := pick (negb (r =? 0)) ST_FAILED ret in
-  let '(r, b) := ustar_format_number (e_mtime e) V7TAR_mtime_size V7TAR_mtime_max_size strict in
-  let h := put V7TAR_mtime_offset b h in
-  let ret := pick (negb (r =? 0)) ST_FAILED ret in
+  let fmode := ustar_format_number (Z.land (e_mode e) 4095) V7TAR_mode_size V7TAR_mode_max_size strict in
+  let ret := pick (negb (fst fmode =? 0)) ST_FAILED ret in
+  let fuid := ustar_format_number (e_uid e) V7TAR_uid_size V7TAR_uid_max_size strict in
+  let ret := pick (negb (fst fuid =? 0)) ST_FAILED ret in
+  let fgid := ustar_format_number (e_gid e) V7TAR_gid_size V7TAR_gid_max_size strict in
+  let ret := pick (negb (fst fgid =? 0)) ST_FAILED ret in
+  let fsize := ustar_format_number (size_of e) V7TAR_size_size V7TAR_size_max_size strict in
+  let ret := pick (negb (fst fsize =? 0)) ST_FAILED ret in
+  let fmtime := ustar_format_number (e_mtime e) V7TAR_mtime_size V7TAR_mtime_max_size strict in
+  let ret := pick (negb (fst fmtime =? 0)) ST_FAILED ret in
   let ft := filetype e in
-  let '(ret, h) :=
-    if 0 <=? mytartype then (ret, put V7TAR_typeflag_offset [mytartype] h)
-    else if (ft =? IFREG) || (ft =? IFDIR) then (ret, h)
-    else if ft =? IFLNK then (ret, put V7TAR_typeflag_offset [50] h)
-    else (ST_FAILED, h) in
-  let checksum := sum_bytes h in
-  let h := put V7TAR_checksum_offset (snd (ustar_format_octal checksum 6)) h in
-  let h := put (V7TAR_checksum_offset + 6) [0] h in
-  (ret, h).
+  let tf := if 0 <=? mytartype_of e then Some [(V7TAR_typeflag_offset, [mytartype_of e])]
+            else if (ft =? IFREG) || (ft =? IFDIR) then Some []
+            else if ft =? IFLNK then Some [(V7TAR_typeflag_offset, [50])]
+            else None in
+  let ret := pick (negb (is_some tf)) ST_FAILED ret in
+  (ret,
+   wr_if fits V7TAR_name_offset pp
+   ++ wr_if (0 <? length lk)%nat V7TAR_linkname_offset (firstn V7TAR_linkname_size lk)
+   ++ [(V7TAR_mode_offset, snd fmode); (V7TAR_uid_offset, snd fuid); (V7TAR_gid_offset, snd fgid);
+       (V7TAR_size_offset, snd fsize); (V7TAR_mtime_offset, snd fmtime)]
+   ++ match tf with Some w => w | None => [] end).
+
+Definition tar_checksum_v7 (h : list Z) : list Z :=
+  put (V7TAR_checksum_offset + 6) [0] (put V7TAR_checksum_offset (snd (ustar_format_octal (sum_bytes h) 6)) h).
+
+Definition v7tar_header (e : entry) (strict : bool) : Z * list Z :=
+  let f := v7tar_fields e strict in
+  (fst f, tar_checksum_v7 (apply_writes (snd f) v7tar_template)).
 
 Definition v7tar_entry (full : bool) (e : entry) : ewrite :=
   match e_path e with
@@ -248,37 +268,38 @@ Definition v7tar_entry (full : bool) (e : entry) : ewrite :=
   end.
 
 (* ------------------------------------------------------------------ gnutar *)
+Definition gnutar_fields (name linkname uname gname : list Z) (e : entry) (tartype : Z) : Z * list wr :=
+  let fmode := gnutar_format_octal (Z.land (e_mode e) 4095) GNUTAR_mode_size in
+  let fuid := gnutar_format_number (e_uid e) GNUTAR_uid_size GNUTAR_uid_max_size in
+  let ret := pick (negb (fst fuid =? 0)) ST_FAILED 0 in
+  let fgid := gnutar_format_number (e_gid e) GNUTAR_gid_size GNUTAR_gid_max_size in
+  let ret := pick (negb (fst fgid =? 0)) ST_FAILED ret in
+  let fsize := gnutar_format_number (size_of e) GNUTAR_size_size GNUTAR_size_max_size in
+  let ret := pick (negb (fst fsize =? 0)) ST_FAILED ret in
+  let fmtime := gnutar_format_octal (e_mtime e) GNUTAR_mtime_size in
+  let fmaj := gnutar_format_octal (dev_major (e_rdev e)) GNUTAR_rdevmajor_size in
+  let ret := pick (is_dev e && negb (fst fmaj =? 0)) ST_FAILED ret in
+  let fmin := gnutar_format_octal (dev_minor (e_rdev e)) GNUTAR_rdevminor_size in
+  let ret := pick (is_dev e && negb (fst fmin =? 0)) ST_FAILED ret in
+  (ret,
+   [(GNUTAR_name_offset, firstn GNUTAR_name_size name)]
+   ++ wr_if (0 <? length linkname)%nat GNUTAR_linkname_offset (firstn GNUTAR_linkname_size linkname)
+   ++ wr_if (0 <? length uname)%nat GNUTAR_uname_offset (firstn GNUTAR_uname_size uname)
+   ++ wr_if (0 <? length gname)%nat GNUTAR_gname_offset (firstn GNUTAR_gname_size gname)
+   ++ [(GNUTAR_mode_offset, snd fmode); (GNUTAR_uid_offset, snd fuid); (GNUTAR_gid_offset, snd fgid);
+       (GNUTAR_size_offset, snd fsize); (GNUTAR_mtime_offset, snd fmtime)]
+   ++ wr_if (is_dev e) GNUTAR_rdevmajor_offset (snd fmaj)
+   ++ wr_if (is_dev e) GNUTAR_rdevminor_offset (snd fmin)
+   ++ [(GNUTAR_typeflag_offset, [tartype])]).
+
+Definition tar_checksum_gnu (h : list Z) : list Z :=
+  put GNUTAR_checksum_offset (snd (gnutar_format_octal (sum_bytes h) 6)) (put (GNUTAR_checksum_offset + 6) [0] h).
+
 (* archive_format_gnutar_header(a, h, entry, tartype) with the strings it takes from the gnutar state
    (main entry) or from the temporary entry ('K'/'L') *)
 Definition gnutar_header (name linkname uname gname : list Z) (e : entry) (tartype : Z) : Z * list Z :=
-  let h := gnutar_template in
-  let h := put GNUTAR_name_offset (firstn GNUTAR_name_size name) h in
-  let h := if (0 <? length linkname)%nat then put GNUTAR_linkname_offset (firstn GNUTAR_linkname_size linkname) h else h in
-  let h := if (0 <? length uname)%nat then put GNUTAR_uname_offset (firstn GNUTAR_uname_size uname) h else h in
-  let h := if (0 <? length gname)%nat then put GNUTAR_gname_offset (firstn GNUTAR_gname_size gname) h else h in
-  let h := put GNUTAR_mode_offset (snd (gnutar_format_octal (Z.land (e_mode e) 4095) GNUTAR_mode_size)) h in
-  let '(r, b) := gnutar_format_number (e_uid e) GNUTAR_uid_size GNUTAR_uid_max_size in
-  let h := put GNUTAR_uid_offset b h in
-  let ret := pick (negb (r =? 0)) ST_FAILED 0 in
-  let '(r, b) := gnutar_format_number (e_gid e) GNUTAR_gid_size GNUTAR_gid_max_size in
-  let h := put GNUTAR_gid_offset b h in
-  let ret := pick (negb (r =? 0)) ST_FAILED ret in
-  let '(r, b) := gnutar_format_number (size_of e) GNUTAR_size_size GNUTAR_size_max_size in
-  let h := put GNUTAR_size_offset b h in
-  let ret := pick (negb (r =? 0)) ST_FAILED ret in
-  let h := put GNUTAR_mtime_offset (snd (gnutar_format_octal (e_mtime e) GNUTAR_mtime_size)) h in
-  let isdev := (filetype e =? IFBLK) || (filetype e =? IFCHR) in
-  let '(r1, b1) := gnutar_format_octal (dev_major (e_rdev e)) GNUTAR_rdevmajor_size in
-  let h := if isdev then put GNUTAR_rdevmajor_offset b1 h else h in
-  let ret := pick (isdev && negb (r1 =? 0)) ST_FAILED ret in
-  let '(r2, b2) := gnutar_format_octal (dev_minor (e_rdev e)) GNUTAR_rdevminor_size in
-  let h := if isdev then put GNUTAR_rdevminor_offset b2 h else h in
-  let ret := pick (isdev && negb (r2 =? 0)) ST_FAILED ret in
-  let h := put GNUTAR_typeflag_offset [tartype] h in
-  let checksum := sum_bytes h in
-  let h := put (GNUTAR_checksum_offset + 6) [0] h in
-  let h := put GNUTAR_checksum_offset (snd (gnutar_format_octal checksum 6)) h in
-  (ret, h).
+  let f := gnutar_fields name linkname uname gname e tartype in
+  (fst f, tar_checksum_gnu (apply_writes (snd f) gnutar_template)).
 
 Definition longlink_name : list Z := [46; 47; 46; 47; 64; 76; 111; 110; 103; 76; 105; 110; 107].  (* "././@LongLink" *)
 Definition s_root : list Z := [114; 111; 111; 116].
@@ -298,7 +319,7 @@ Definition gnutar_long (tartype : Z) (linkname s : list Z) : Z * list Z :=
 Definition gnutar_entry (full : bool) (e0 : entry) : ewrite :=
   let e := dir_slash (no_body e0) in
   let name := ob (e_path e) in
-  let linkname := if (0 <? length (ob (e_hard e)))%nat then ob (e_hard e) else ob (e_sym e) in
+  let linkname := linkname_of e in
   let uname := ob (e_uname e) in
   let gname := ob (e_gname e) in
   let '(rk, outk) := if (GNUTAR_linkname_size <? length linkname)%nat then gnutar_long 75 linkname linkname else (0, []) in
